@@ -433,6 +433,9 @@ def read_associate_def(line: str):
         if match_char < 0:
             return "assoc", []
         var_words = separate_def_list(trailing_line[:match_char].strip())
+        # Malformed association list, e.g. while it is being typed
+        if var_words is None:
+            var_words = []
         return "assoc", var_words
 
 
@@ -2138,7 +2141,11 @@ def preprocess_file(
             out_line = ""
             for match in FRegex.WORD.finditer(line):
                 if match.group(0) in defs:
-                    out_line += line[i0 : match.start(0)] + defs[match.group(0)]
+                    def_value = defs[match.group(0)]
+                    # Function-like macros are stored as (arguments, body)
+                    if isinstance(def_value, tuple):
+                        def_value = def_value[1]
+                    out_line += line[i0 : match.start(0)] + str(def_value)
                 else:
                     out_line += line[i0 : match.start(0)] + "False"
                 i0 = match.end(0)
